@@ -248,6 +248,36 @@ def unchecked_arith_params(p, cf, depth=0):
     return out
 
 
+def ser9(p, res):
+    """SER-1 trusts the helper `checked_len(dims)` by name: the readers hand it raw header fields and compare its result with the payload length.  The trust is discharged here:
+    the helper (and its closures) multiplies only through `checked_mul` - no `Iterator::product` / `sum`, no `*` / wrapping / widening-then-narrowing arithmetic on values that
+    come from its argument - and returns the `Option` of that chain."""
+    n = 0
+    for f in sorted(p.lib_fns(), key=lambda x: x.uid):
+        if f.name != "checked_len" or f.kind == "Closure" or not f.blocks or f.is_test():
+            continue
+        n += 1
+        bodies = [f] + list(p.closures_of(f))
+        names = [(b, (b.callee_def(t) or {}).get("n", "")) for b in bodies for bi, t in b.calls()]
+        has_checked = any(nm == "checked_mul" for _, nm in names)
+        loose = sorted({nm for _, nm in names if nm in ("product", "sum", "wrapping_mul", "saturating_mul", "overflowing_mul", "unchecked_mul", "pow", "wrapping_pow")})
+        raw = []
+        for b in bodies:
+            for blk in b.blocks:
+                if blk["c"]:
+                    continue
+                for s in blk["s"]:
+                    if s[0] == "A" and s[2]["k"] == "Bin" and s[2]["op"] in ("Mul", "MulWithOverflow", "MulUnchecked", "Shl", "ShlUnchecked"):
+                        raw.append(s[2]["op"])
+        if has_checked and not loose and not raw:
+            res.ok("SER-9", {"helper": f.pretty, "bodies": len(bodies)})
+        else:
+            res.bad("SER-9", f.pretty, "length-helper-not-checked", "%s - the helper every reader trusts with raw header fields - %s: a product of corrupted fields overflows (panic in dev builds, "
+                    "wrap-around in release builds, where it can equal the payload length) before anything is validated" % (f.pretty,
+                    "multiplies through %s" % ", ".join(loose + sorted(set(raw))) if (loose or raw) else "does not multiply through checked_mul"), site=f.where())
+    return n
+
+
 def check_reader(p, res, im, fn):
     fkey = fn.pretty
     g = CFG(fn)
@@ -917,6 +947,7 @@ def run(res, tier):
     res.rule("SER-2", "a tainted value is stored into n/cols/size/max_size/rows/cols_in/cols_out only when dominated by a comparison chain ending at the receiver's buffer/capacity")
     res.rule("SER-3", "no fallible step (stream read, delegated read, return Err) is reachable after a store to a receiver metadata field or after a delegated sub-object read")
     res.rule("SER-8", "a receiver container whose length (not capacity) bounds the incoming length is not replaced or shortened by the commit")
+    res.rule("SER-9", "the length helper the readers trust with raw header fields (checked_len) multiplies only through checked_mul")
     res.rule("SER-7", "a scalar is not narrowed on its way to write_uN/iN, and a narrower unsigned item is not widened into a signed field on the way back")
     res.rule("SER-4", "write_to and read_from of a type perform the same ordered sequence of items")
     res.rule("SER-6", "every receiver field serialised by write_to is stored back (or read into) by read_from")
@@ -945,6 +976,8 @@ def run(res, tier):
         ser4(p, res, rd, wr)
         n6 = ser6(p, res, rd, wr)
         res.floor("SER-6", "writer/reader pairs", n6, 28)
+        n9 = ser9(p, res)
+        res.floor("SER-9", "trusted length helpers", n9, 1)
         ser5(p, res, rd, wr)
         n7 = ser7(p, res, rd, wr)
         res.floor("SER-7", "scalar wire items", n7, 60)
